@@ -73,6 +73,12 @@ theorem c05_ladder_depth_independent (b : Base) (sig : Sig) :
     plan mockProbe b sig executeDef = plan mockProbe base0 sig executeDef :=
   plan_any_base genCfg gen_checkC05 b sig
 
+/-- The hypothesis `DepthIndependent` of `c04_contained_when_nested` (PedalProofs/C04.lean), discharged
+    (stated here in full because C05.lean does not import C04.lean). -/
+theorem c05_discharges_c04_depth_hypothesis :
+    ∀ (b : Base) (sig : Sig), plan mockProbe b sig executeDef = plan mockProbe base0 sig executeDef :=
+  c05_ladder_depth_independent
+
 /-- An execution started in ANY state of the stacks - i.e. while any number of other executions are in progress
     on the same sandbox - whose running code starts further executions `inner` that leave things as they found
     them: both stacks and every borrowed global are exactly what they were when it started, however it ends. -/
